@@ -182,6 +182,19 @@ func runC06(c *core.Ctx) {
 						c.Inconclusive("harness: cannot build chain: " + core.MsgClass(err.Error()))
 						continue
 					}
+					// half of the cases verify the layout as loaded from its file (what the CLI does), the
+					// other half the in-memory object that was just signed
+					if cn%2 == 0 {
+						lp := filepath.Join(root, "as-loaded.layout")
+						if derr := md.Dump(lp); derr == nil {
+							if lmd, lerr := intoto.LoadMetadata(lp); lerr == nil {
+								md = lmd
+							} else if ec.class == "future" {
+								c.Inconclusive("control layout cannot be loaded back: " + core.MsgClass(lerr.Error()))
+								continue
+							}
+						}
+					}
 					if ec.waitPast > 0 {
 						time.Sleep(ec.waitPast)
 					}
@@ -274,12 +287,16 @@ func init() {
 	core.Register(&core.Property{
 		ID:    "C06",
 		Level: "exploration",
-		Rule: "catalogue of expiry strings: now -/+ {2s,5s,1min,1h,1d,1y,100y}, 'valid when built, verified 2.2 s after it expired', years 0001/1970/2999/9999, 22 malformed forms (empty, date only, offsets, separators, impossible dates, trailing/leading text, other date layouts), arguable forms (leap second, lower case, fraction, one-digit fields: run but not judged); thorough: + 2000 random strings and every single-character mutation of a valid timestamp; x 2 wrappers x 2 entry points x {flat chain with inspection, valid root over an expired/undated sublayout, expired/undated root over a valid sublayout with its own inspection}. Oracle: call bracket [t0,t1] sampled around the call (no clock of our own), marker files, trace automaton. " +
+		Rule: "catalogue of expiry strings: now -/+ {2s,5s,1min,1h,1d,1y,100y}, 'valid when built, verified 2.2 s after it expired', years 0001/1970/2999/9999, 22 malformed forms (empty, date only, offsets, separators, impossible dates, trailing/leading text, other date layouts), arguable forms (leap second, lower case, fraction, one-digit fields: run but not judged); thorough: + 2000 random strings and every single-character mutation of a valid timestamp; x 2 wrappers x 2 entry points x {layout object as signed in memory, layout loaded from its file} x verifier time zones {UTC, America/Los_Angeles, Asia/Tokyo, Pacific/Kiritimati} (by worker) x {flat chain with inspection, valid root over an expired/undated sublayout, expired/undated root over a valid sublayout with its own inspection}. Oracle: call bracket [t0,t1] sampled around the call (no clock of our own), marker files, trace automaton. " +
 			"non-trivial = the layout signature phase passed; distinct = (class, label, wrapper, entry point, nesting)",
 		Assumptions: []string{"an expiry inside the call bracket [t0,t1] is inconclusive", "strings of arguable well-formedness (leap second, lower-case t/z, fractional seconds, one-digit fields) are not judged", "a rejected control with a future expiry is inconclusive (observation floor on accepted controls)"},
 		Workers:     func(string) int { return 16 },
 		Floors: func(string) map[string]int64 {
 			return map[string]int64{"expired_rejected": 40, "malformed_rejected": 80, "future_accepted": 40}
+		},
+		// the verifier's local time zone must not matter: workers run in UTC, far west and far east
+		Env: func(t string, shard int, wdir string) []string {
+			return []string{"TZ=" + []string{"UTC", "America/Los_Angeles", "Asia/Tokyo", "Pacific/Kiritimati"}[shard%4]}
 		},
 		Run:      runC06,
 		TimeoutS: func(t string) int { return 1200 },
